@@ -347,21 +347,22 @@ class K:
 
 
 def gene_map_kind(prog):
-    """what GenomicArray._get_gene_map stores per gene: index LABELs (for idx, x in Series.items()) or POSitions (enumerate)"""
-    fi = prog.fn("skgenome.gary.GenomicArray._get_gene_map")
-    for n in own_nodes(fi.node):
-        if isinstance(n, ast.For) and isinstance(n.target, ast.Tuple) and len(n.target.elts) == 2 and isinstance(n.target.elts[0], ast.Name):
-            first = n.target.elts[0].id
-            appended = any(isinstance(c, ast.Call) and isinstance(c.func, ast.Attribute) and c.func.attr == "append" and c.args
-                           and isinstance(c.args[0], ast.Name) and c.args[0].id == first for c in ast.walk(n))
-            if not appended:
-                continue
-            it = n.iter
-            if isinstance(it, ast.Call) and isinstance(it.func, ast.Attribute) and it.func.attr in ("items", "iteritems"):
-                return "LABEL"
-            if isinstance(it, ast.Call) and isinstance(it.func, ast.Name) and it.func.id == "enumerate":
-                return "POS"
-    raise AnalysisError("cannot tell whether _get_gene_map stores index labels or positions")
+    """what GenomicArray._get_gene_map stores per gene: index LABELs or row POSitions -- found by interpreting it on a literal table whose
+    index labels (7, 3, 9) are not the row positions (0, 1, 2)"""
+    from .abstools import make_ga, Interp, Undecided, Raised, W
+    W.reset()
+    labels = [7, 3, 9]
+    g = make_ga("CopyNumArray", [dict(chromosome="chr1", start=10 * i, end=10 * i + 5, gene=nm, log2=0) for i, nm in enumerate(["A", "B,A", "C"])], {}, exact=True, labels=labels)
+    try:
+        out = Interp(prog).run_method(g, "_get_gene_map", [])
+        got = {k: list(v) for k, v in dict(out).items()}
+    except (Undecided, Raised, TypeError, ValueError) as e:
+        raise AnalysisError(f"cannot tell whether _get_gene_map stores index labels or positions: {e}")
+    if got == {"A": [7, 3], "B": [3], "C": [9]}:
+        return "LABEL"
+    if got == {"A": [0, 1], "B": [1], "C": [2]}:
+        return "POS"
+    raise AnalysisError(f"cannot tell whether _get_gene_map stores index labels or positions: it maps A / B,A / C on rows labelled 7, 3, 9 to {got}")
 
 
 def index_kind_problems(prog, fi):
